@@ -206,3 +206,21 @@ def strip_docstring(body):
             and isinstance(body[0].value.value, str):
         return body[1:]
     return body
+
+
+def call_is(node, func_text, params, **want):
+    """``node`` is a call of ``func_text`` whose arguments (keyword or
+    positional, ``params`` = parameter names in order without self) have
+    exactly the texts in ``want``."""
+    if not (isinstance(node, ast.Call) and U(node.func) == func_text):
+        return False
+    got = {}
+    for i, a in enumerate(node.args):
+        if isinstance(a, ast.Starred) or i >= len(params):
+            return False
+        got[params[i]] = U(a)
+    for k in node.keywords:
+        if k.arg is None or k.arg in got:
+            return False
+        got[k.arg] = U(k.value)
+    return got == want
